@@ -10,6 +10,8 @@ import (
 	"go/token"
 	"go/types"
 	"sort"
+
+	"golang.org/x/tools/go/packages"
 )
 
 type condLit struct {
@@ -98,12 +100,56 @@ func isContextType(t types.Type) bool {
 
 // impliedUnder reports whether the conjunction of lits holds under every assignment in which the error atoms are
 // "non-nil" and the context atoms "alive"; free atoms range over both values. ok=false: too many atoms.
+// boolHelpers lets impliedUnder look through calls of same-package functions whose body is a single `return <bool
+// expression>`: the call is replaced by that expression (the classification of atoms is by type, so the callee's own
+// parameter names do not matter). Set by the rule that uses impliedUnder; nil means calls stay opaque atoms.
+var boolHelpers func(call *ast.CallExpr) ast.Expr
+
+// packageBoolHelpers resolves calls of package-level functions (no receiver) of p whose body is one `return <expr>`
+// with a single boolean result.
+func packageBoolHelpers(p *packages.Package) func(call *ast.CallExpr) ast.Expr {
+	decls := FuncDecls(p)
+	return func(call *ast.CallExpr) ast.Expr {
+		fn := calleeOf(p.TypesInfo, call)
+		if fn == nil || fn.Pkg() != p.Types {
+			return nil
+		}
+		sig, _ := fn.Type().(*types.Signature)
+		if sig == nil || sig.Recv() != nil || sig.Results().Len() != 1 {
+			return nil
+		}
+		if b, ok := sig.Results().At(0).Type().Underlying().(*types.Basic); !ok || b.Kind() != types.Bool {
+			return nil
+		}
+		fd := decls[fn.Name()]
+		if fd == nil || fd.Body == nil || len(fd.Body.List) != 1 {
+			return nil
+		}
+		if rs, ok := fd.Body.List[0].(*ast.ReturnStmt); ok && len(rs.Results) == 1 {
+			return rs.Results[0]
+		}
+		return nil
+	}
+}
+
+func expandBoolHelper(e ast.Expr) ast.Expr {
+	if boolHelpers == nil {
+		return e
+	}
+	if call, ok := ast.Unparen(e).(*ast.CallExpr); ok {
+		if body := boolHelpers(call); body != nil {
+			return body
+		}
+	}
+	return e
+}
+
 func impliedUnder(fset *token.FileSet, info *types.Info, lits []condLit) (holds bool, counter string, ok bool) {
 	free := map[string]int{}
 	var names []string
 	var collect func(e ast.Expr)
 	collect = func(e ast.Expr) {
-		e = ast.Unparen(e)
+		e = ast.Unparen(expandBoolHelper(e))
 		switch x := e.(type) {
 		case *ast.UnaryExpr:
 			if x.Op == token.NOT {
@@ -134,7 +180,7 @@ func impliedUnder(fset *token.FileSet, info *types.Info, lits []condLit) (holds 
 	}
 	var eval func(e ast.Expr, asg int) bool
 	eval = func(e ast.Expr, asg int) bool {
-		e = ast.Unparen(e)
+		e = ast.Unparen(expandBoolHelper(e))
 		switch x := e.(type) {
 		case *ast.UnaryExpr:
 			if x.Op == token.NOT {
